@@ -112,7 +112,7 @@ out.append("**Benign changes** (must stay silent; `seeded/benign/N.diff`, writte
            "guard in front of the keyword lookup, a pre-allocated traversal stack, fixed-message errors built by a helper that\n"
            "returns a new *Error each time, expect() without the Clone, Position.String() without fmt, a shared\n"
            "`expr.field` printing helper, a grown slice in the poslang interpreter).\n"
-           "Result of `tools/benign_run.sh quick` with the final harness (all 20 checks per patch):\n")
+           "Result of `tools/benign_run.sh quick` with the harness of round 9 (all 20 checks per patch):\n")
 if os.path.exists(bf):
     out.append("```")
     out.append(open(bf).read().rstrip())
@@ -120,6 +120,18 @@ if os.path.exists(bf):
 else:
     out.append("(not yet run)")
 out.append("")
+pf = os.path.join(HERE, "seeded", "benign", "RESULT.pairs.quick.txt")
+if os.path.exists(pf):
+    out.append("After rounds 10 and 11 there was no time for the full 24 x 20 run again (about two hours). The checks that gained a\n"
+               "workload or a stricter observer in those rounds were run against the benign patches that touch the code they\n"
+               "observe (`tools/benign_pairs.sh quick`: traversal stack -> C17, C04, C19; lexer fast paths and the keyword length\n"
+               "guard -> C13, C14, C16; reworded / fixed-message errors, ResolvePos, Position.String -> C03, C18, C20; parser\n"
+               "refactoring, split loop, expect() without Clone -> C11, C12, C08, C01, C02; strings.Builder and the shared\n"
+               "`expr.field` helper in sql.go -> C01, C02). All 30 (patch, check) runs were silent:\n")
+    out.append("```")
+    out.append(open(pf).read().rstrip())
+    out.append("```")
+    out.append("")
 text = "\n".join(out) + "\n"
 p = os.path.join(HERE, "DESIGN.md")
 s = open(p).read()
